@@ -82,8 +82,10 @@ def rich_doc(rng, variant: int, kind: str = "single", nfig: int = 2) -> dict:
                         "as_table": kind != "figure"},
            "source": {"text": "Source: " + rng.choice(LATEX_TEXTS), "text_convert": [[conv]], "as_table": False}}
     if kind == "figure":
-        rec["figure"] = {"files": [{"fmt": "png", "w": 40 + 10 * i, "h": 30, "seed": 100 + i} for i in range(nfig)],
-                         "kw": {"fig_width": [3.0 + variant] * nfig}}
+        # first image: a JPEG whose header announces a huge size (size-dependent code paths), then small PNGs
+        files = [{"fmt": "jpeg", "w": 12000, "h": 9000, "seed": 100}] + \
+                [{"fmt": "png", "w": 40 + 10 * i, "h": 30, "seed": 100 + i} for i in range(1, nfig)]
+        rec["figure"] = {"files": files, "kw": {"fig_width": [3.0 + variant] * nfig}}
         rec["dfs"], rec["bodies"], rec["headers"] = [], [], "default"
         return rec
     nsec = 1 if kind == "single" else 2
@@ -520,6 +522,10 @@ def profile_hot(arg) -> dict:
     windows = arg.get("windows")  # None or {"<ri>:<rep>": [window indices]}
     fs = state.FastSig()
     hot: dict = {}
+    # process-global state that is changed and restored *within one library frame* is invisible at
+    # call/return boundaries: hook the well-known mutators and attribute their use to the library
+    # function (and its caller) on whose behalf they run
+    mutator_hits = _install_mutator_hooks(hot, boot)
     flagged: dict = {}
     for ri, recipe in enumerate(arg["recipes"]):
         try:
@@ -583,15 +589,82 @@ def profile_hot(arg) -> dict:
             if fine is None and fs.sig() != last[0]:
                 flagged.setdefault(key, []).append(n[0] // PROFILE_GRAIN)
                 flagged[key].append(n[0] // PROFILE_GRAIN + 1)
-    return {"hot": hot, "flagged": flagged, "slots": len(fs.slots)}
+    return {"hot": hot, "flagged": flagged, "slots": len(fs.slots), "mutators": dict(mutator_hits)}
+
+
+def _install_mutator_hooks(hot: dict, boot) -> dict:
+    import contextlib
+    import decimal
+    import locale
+    import random as _random
+    import warnings
+
+    hits: dict = {}
+
+    def note(label):
+        f = sys._getframe(2)
+        found = 0
+        while f is not None and found < 2:
+            if boot.is_lib_code(f.f_code):
+                k = boot.site_of(f.f_code)
+                hot[k] = hot.get(k, 0) + (1 if found == 0 else 0)
+                found += 1
+            f = f.f_back
+        if found:
+            hits[label] = hits.get(label, 0) + 1
+
+    def wrap(owner, name, label):
+        try:
+            orig = getattr(owner, name)
+        except AttributeError:
+            return
+
+        def hooked(*a, _orig=orig, **k):
+            note(label)
+            return _orig(*a, **k)
+
+        try:
+            setattr(owner, name, hooked)
+        except (AttributeError, TypeError):
+            pass
+
+    wrap(warnings.catch_warnings, "__enter__", "warnings.catch_warnings")
+    for n in ("simplefilter", "filterwarnings", "resetwarnings"):
+        wrap(warnings, n, "warnings." + n)
+    for n in ("chdir", "putenv", "unsetenv", "umask"):
+        wrap(os, n, "os." + n)
+    for n in ("__setitem__", "__delitem__"):
+        wrap(type(os.environ), n, "os.environ")
+    wrap(locale, "setlocale", "locale.setlocale")
+    for n in ("setcontext", "localcontext"):
+        wrap(decimal, n, "decimal." + n)
+    wrap(_random, "seed", "random.seed")
+    for n in ("setrecursionlimit", "setswitchinterval"):
+        wrap(sys, n, "sys." + n)
+    for cm in ("redirect_stdout", "redirect_stderr"):
+        wrap(getattr(contextlib, cm), "__enter__", "contextlib." + cm)
+    try:
+        import polars as pl
+
+        wrap(pl.Config, "__enter__", "polars.Config")
+        for n in dir(pl.Config):
+            if n.startswith("set_"):
+                wrap(pl.Config, n, "polars.Config." + n)
+        wrap(pl.StringCache, "__enter__", "polars.StringCache")
+        wrap(pl, "enable_string_cache", "polars.enable_string_cache")
+    except Exception:  # noqa: BLE001
+        pass
+    return hits
 
 
 def find_hot_sites(recipes: list, figdir: str) -> dict:
     p1 = core.run_in_child(profile_hot, {"recipes": recipes, "figdir": figdir})
-    if not p1["flagged"]:
-        return {}
-    p2 = core.run_in_child(profile_hot, {"recipes": recipes, "figdir": figdir, "windows": p1["flagged"]})
-    return p2["hot"]
+    hot = dict(p1["hot"])  # from the mutator hooks (complete in pass 1)
+    if p1["flagged"]:
+        p2 = core.run_in_child(profile_hot, {"recipes": recipes, "figdir": figdir, "windows": p1["flagged"]})
+        for k, v in p2["hot"].items():
+            hot[k] = max(hot.get(k, 0), v)
+    return hot
 
 
 # --------------------------------------------------------------------------
@@ -649,17 +722,21 @@ def signature(v: dict) -> dict:
 
 
 class RefCache:
-    def __init__(self, figdir):
+    def __init__(self, figdir, server=None):
         self.figdir = figdir
         self.cache: dict = {}
+        self.server = server  # zygote under another PYTHONHASHSEED (core.RefServer) or None
 
     def get(self, recipe, want_text=False, want_sites=False):
         h = R.recipe_hash(recipe)
         if not want_text and not want_sites and h in self.cache:
             return self.cache[h]
-        ref = core.run_in_child(R.reference_worker, {"recipe": recipe, "figdir": self.figdir, "warmup": True,
-                                                     "want_text": want_text, "want_sites": want_sites,
-                                                     "want_lines": True})
+        arg = {"recipe": recipe, "figdir": self.figdir, "warmup": True, "want_text": want_text,
+               "want_sites": want_sites, "want_lines": True}
+        if self.server is not None:
+            ref = self.server.call("sim.recipes:reference_worker", arg)
+        else:
+            ref = core.run_in_child(R.reference_worker, arg)
         if not want_text and not want_sites:
             self.cache[h] = ref
         return ref
@@ -767,7 +844,10 @@ def _ws():
     if _worker_state.get("pid") != os.getpid():
         figdir = tempfile.mkdtemp(prefix="vc15_")
         _worker_state.clear()
-        _worker_state.update(pid=os.getpid(), figdir=figdir, refcache=RefCache(figdir), minimised=0)
+        server = None
+        if os.environ.get("VERIF_NO_REFSERVER") != "1":
+            server = core.RefServer(core.other_hashseed(core.root_seed()), coop_locks=True)
+        _worker_state.update(pid=os.getpid(), figdir=figdir, refcache=RefCache(figdir, server), minimised=0)
     return _worker_state
 
 
@@ -872,7 +952,7 @@ def sweep_groups(root: int, n_groups: int) -> list:
     MA, MB = rich_doc(rng, 0, "multi"), rich_doc(rng, 1, "multi")
     FA = rich_doc(rng, 0, "figure", nfig=2)
     FB = rich_doc(rng, 1, "figure", nfig=1)
-    FB["figure"]["files"] = [dict(FA["figure"]["files"][1])]  # same image as FA's second figure
+    FB["figure"]["files"] = [dict(FA["figure"]["files"][0])]  # same image as FA's first figure
     failing = None
     for _ in range(400):
         r = gen_doc(rng, force_colour=True)
@@ -943,6 +1023,17 @@ def sweep_jobs(root: int, groups: list, refcache: RefCache, specs: list, hot_inf
         m = max(1, int(hot3_cap ** 0.5))
         pick_a = sa[:: max(1, -(-len(sa) // m))]
         pick_b = sb[:: max(1, -(-len(sb) // m))]
+        # two threads, two or three switches: A paused inside a hot function, B paused inside a hot
+        # function, A resumes (to completion, or just for d more boundaries), then B
+        for k1 in pick_a:
+            for j2 in pick_b:
+                for d in (None, 1, 2, 4, 8):
+                    decs = [[k1, 1], [k1 + j2, 0]] + ([[k1 + j2 + d, 1]] if d else [])
+                    plan = {"recipes": [a, b], "decider": {"kind": "sweep"}, "first": 0, "trace_mode": "hot",
+                            "hot_sites": sorted(info["hot"]), "decisions": decs, "finish_pref": [0, 1], "abort": None}
+                    jobs.append({"idx": idx, "sweep": {"group": name, "order": 0, "k": k1, "K": len(sa),
+                                                       "mode": "hot2x", "stride": 0}, "plan": plan})
+                    idx += 1
         for k1 in pick_a:
             for j2 in pick_b:
                 for pref in ([0, 1], [1, 0]):
